@@ -141,7 +141,15 @@ pub fn check_kb_shape(parts: &Parts, aud: &str, nonce: &str) -> Result<(), Strin
 fn one_case(ctx: &Ctx, case: u64, l: &mut Local) {
     let mut r = Rng::for_case(ctx.seed, STREAM, case);
     let cfg = Config::from_index(case);
-    let s: Scenario = pipeline::gen_scenario(ctx, &mut r, cfg.clone());
+    let mut s: Scenario = pipeline::gen_scenario(ctx, &mut r, cfg.clone());
+    // once per 50 000 cases (once in the quick run): a hidden value of 9 MiB, an embedded document scan; the
+    // presentation carries its disclosure like any other
+    if case % 50_000 == 7 && !matches!(std::env::var("VERIF_LEG").as_deref(), Ok("miri") | Ok("valgrind")) {
+        s.u["scan#9mib;"] = json!("S".repeat(9 * 1024 * 1024));
+        s.u["scans#9mib;"] = json!([{"page": 1, "data": "T".repeat(6 * 1024 * 1024 + 17)}]);
+        s.strat = gen::gen_strategy(&mut r, &s.u, if matches!(cfg.strat, gen::StratKind::NoSD) || cfg.strat.is_custom() { gen::StratKind::TopLevel } else { cfg.strat });
+        l.count("boundary.nine-mebibyte-value");
+    }
     let class = cfg.profile.name();
     let base_input = || json!({"config": cfg.describe(), "claims": s.u, "strategy": s.strat.describe()});
     let issued = match pipeline::issue_scenario(&s) {
